@@ -59,6 +59,8 @@ def run_matrix(case, r):
             return
         if cls == "RemoterTls" and not E.aborted:
             r.fail("C10/not-aborted:%s" % cls, "handshake failed with %s but aborted is %r" % (err, E.aborted))
+        if cls == "ClientTls" and not (E.cutoff or getattr(E, "aborted", False)):
+            r.fail("C10/not-marked:%s" % cls, "handshake failed with %s but neither cutoff nor aborted is set" % err)
         if E.connected:
             r.fail("C10/connected-after-failed-handshake:%s" % cls, "%s" % err)
         return
